@@ -23,9 +23,10 @@ structure EngCfg where
   int : String
   pub : String
   auth : Bool
+  rs : String
 
 structure St where
-  regs : List Registered := []
+  regs : List (String × List Registered) := []
   engines : List (String × EngCfg) := []
   keys : List AuthKey := []
   aud : String := ""
@@ -56,11 +57,14 @@ def showResp (r : Response) : String :=
 def step (st : St) (j : Json) : St × List String :=
   match jStr j "op" with
   | "cfg" =>
-    let regs := (jArr j "routes").map (fun r =>
+    let mkRegs := fun (l : List Json) => l.map (fun r =>
       let p := (jStr r "p").toList
       ({ path := p, route := { id := jNat r "id", method := jStr r "m", pat := patOf p } } : Registered))
+    let regs := match j.getObjVal? "routesets" with
+      | .ok (.obj kv) => kv.toList.map (fun (kv : String × Json) => (kv.1, mkRegs (match kv.2 with | .arr a => a.toList | _ => [])))
+      | _ => ([] : List (String × List Registered))
     let engs := match j.getObjVal? "engines" with
-      | .ok (.obj kv) => kv.toList.map (fun (kv : String × Json) => (kv.1, ({ int := jStr kv.2 "int", pub := jStr kv.2 "pub", auth := jBool kv.2 "auth" } : EngCfg)))
+      | .ok (.obj kv) => kv.toList.map (fun (kv : String × Json) => (kv.1, ({ int := jStr kv.2 "int", pub := jStr kv.2 "pub", auth := jBool kv.2 "auth", rs := jStr kv.2 "rs" } : EngCfg)))
       | _ => ([] : List (String × EngCfg))
     ({ regs := regs, engines := engs, keys := (jStrs j "keys").map (fun c => { comment := c }), aud := jStr j "aud", now := jInt j "now" }, ["cfg"])
   | "req" =>
@@ -71,7 +75,8 @@ def step (st : St) (j : Json) : St × List String :=
       | none => (st, ["bind-error"])
       | some binds =>
         let addr := if jStr j "lis" == "pub" then e.pub else e.int
-        let rs := routesAt binds st.regs addr
+        let regs := match st.regs.find? (·.1 == e.rs) with | some (_, l) => l | none => []
+        let rs := routesAt binds regs addr
         let authMap := match j.getObjVal? "authok" with
           | .ok (.obj kv) => kv.toList.map (fun (kv : String × Json) => (unhexStr kv.1, kv.2.getBool?.toOption.getD false))
           | _ => ([] : List (Str × Bool))
